@@ -22,13 +22,32 @@ const MSG_RX_STATE_BITMAP_LEN: u32 = 16;
 pub struct RxCtrState {
     max_ctr: u32,
     ctr_bitmap: u16,
+    /// `false` until the first message counter of the peer is seen
+    /// (see [`RxCtrState::new_unsynced`]).
+    synced: bool,
 }
 
 impl RxCtrState {
+    /// A state synchronized at `max_ctr`, with all counters before it considered
+    /// received (trust-first group senders).
     pub const fn new(max_ctr: u32) -> Self {
         Self {
             max_ctr,
             ctr_bitmap: 0xffff,
+            synced: true,
+        }
+    }
+
+    /// A state which is not synchronized with the peer's counter yet (a new session).
+    ///
+    /// The first counter received - whatever its value - synchronizes the state and is accepted,
+    /// and none of the counters before it are considered received: the first message to arrive
+    /// is not necessarily the first one the peer sent.
+    pub const fn new_unsynced() -> Self {
+        Self {
+            max_ctr: 0,
+            ctr_bitmap: 0,
+            synced: false,
         }
     }
 
@@ -51,6 +70,14 @@ impl RxCtrState {
     /// - `true` (group): modular comparison — a counter is forward
     ///   iff `(msg_ctr - max_ctr) mod 2^32` falls in `[1, 2^31 - 1]`, otherwise behind.
     pub fn post_recv(&mut self, msg_ctr: u32, is_encrypted: bool, with_rollover: bool) -> bool {
+        if !self.synced {
+            self.synced = true;
+            self.max_ctr = msg_ctr;
+            self.ctr_bitmap = 0;
+
+            return true;
+        }
+
         if msg_ctr == self.max_ctr {
             // Duplicate
             return false;
@@ -87,7 +114,13 @@ impl RxCtrState {
                 self.ctr_bitmap <<= udiff;
                 self.insert(udiff - 1);
             } else {
-                self.ctr_bitmap = 0xffff;
+                // The whole window is ahead of the previous max_ctr: none of the counters
+                // in it were received yet (only the previous max_ctr itself, if it is the
+                // oldest counter the window still covers)
+                self.ctr_bitmap = 0;
+                if udiff == MSG_RX_STATE_BITMAP_LEN {
+                    self.insert(udiff - 1);
+                }
             }
             true
         } else if !is_encrypted {
